@@ -27,6 +27,9 @@ theorem flush_committed_pending (s : Store) (d : Disk) (ft : Fault)
   by_cases h5 : ft = Fault.appendNoRepair
   · simp [h5, Outcome.committed] at ho
   simp only [h5, ↓reduceIte] at ho ⊢
+  by_cases h5' : ft = Fault.appendFullNoRepair
+  · simp [h5', Outcome.committed] at ho
+  simp only [h5', ↓reduceIte] at ho ⊢
   by_cases h6 : countPrunes s.pending = 0
   · simp [h6]
   simp only [h6, ↓reduceIte] at ho ⊢
@@ -66,6 +69,9 @@ theorem flush_closed_same (s : Store) (d : Disk) (ft : Fault) : (flushLocked s d
     by_cases h5 : ft = Fault.appendNoRepair
     · simp [h5, e3]
     simp only [h5, ↓reduceIte]
+    by_cases h5' : ft = Fault.appendFullNoRepair
+    · simp [h5', e3]
+    simp only [h5', ↓reduceIte]
     by_cases h6 : countPrunes s.pending = 0
     · simp [h6, e3]
     simp only [h6, ↓reduceIte]
